@@ -27,8 +27,12 @@ def normalize(v):
     norm = v.norm
     nvals = norm.values
     if norm.shape:
-        return v / np.where(nvals == 0, 1, nvals)
-    return v / (nvals or 1)
+        out = v / np.where(nvals == 0, 1, nvals)
+    else:
+        out = v / (nvals or 1)
+    # A direction is a pure number, whatever the vector it is taken from measures
+    out.unit = ""
+    return out
 
 
 def _binary_op(op, lhs, rhs):
